@@ -199,7 +199,7 @@ PROPS = {
         flavour="asan",
         level="fault_enumeration",
         harnesses=["c16_starve"],
-        quick=dict(shards=16, cases=200, min_nontrivial=100),
+        quick=dict(shards=16, cases=110, min_nontrivial=60),
         thorough=dict(shards=16, cases=10000, fuzz_s=600, fuzz_jobs=16, fuzz_max_len=704, min_nontrivial=100),
         assumptions=COMMON_ASSUME + [
             "physics data are synthetic ImportData pushed through the production construction path (see C01)",
@@ -252,6 +252,22 @@ PROPS = {
         assumptions=COMMON_ASSUME + [
             "oriented bounding zones are not part of the JSON format (never read by tracking) and are not compared; a null unit bbox of a "
             "non-global unit reads back as infinite; a zero Translation of an array cell reads back as NoTransformation (reader's documented normalisation)",
+        ],
+    ),
+    "C07": dict(
+        flavour="asan",
+        level="exploration",
+        harnesses=["c07_streams"],
+        shard_flavours=["asan", "tsan"],
+        extra_builds=[dict(flavour="tsan", targets=["c07_streams_pbt"])],
+        quick=dict(shards=8, cases=40, min_nontrivial=40, per_flavour={"tsan": dict(shards=4, cases=12)}),
+        thorough=dict(shards=8, cases=3000, min_nontrivial=60, per_flavour={"tsan": dict(shards=8, cases=800)}),
+        assumptions=COMMON_ASSUME + [
+            "threads are free-running (generated start skews); only interleavings that happen to occur are observed; in the tsan flavour "
+            "any ThreadSanitizer report aborts the shard and is reported with the case's bytes (a race that needs a specific instruction "
+            "interleaving and is invisible to TSan's happens-before analysis can be missed)",
+            "std::thread per stream with its own Stepper/StreamId as in app/celer-sim/Transporter.cc; the OpenMP pragma and Runner cannot run offline",
+            "synthetic physics problems as for C01; per-event equality relies on reseeding (C06)",
         ],
     ),
 }
